@@ -248,3 +248,90 @@ def flatten_else(src: str) -> str:
     tree = T().visit(tree)
     ast.fix_missing_locations(tree)
     return ast.unparse(tree) + "\n"
+
+
+def hoist_returns(src: str) -> str:
+    """A fifth behaviour-preserving rewrite: inside function bodies `return E` (E not a name or a literal) becomes
+    `result_k = E; return result_k` — what naming or logging a result looks like."""
+    tree = ast.parse(src)
+
+    class T(ast.NodeTransformer):
+        def __init__(self):
+            self.k = 0
+            self.fn = 0
+
+        def visit_FunctionDef(self, node):
+            self.fn += 1
+            self.generic_visit(node)
+            self.fn -= 1
+            return node
+
+        visit_AsyncFunctionDef = visit_FunctionDef
+
+        def visit_Lambda(self, node):
+            return node
+
+        def generic_visit(self, node):
+            super().generic_visit(node)
+            if self.fn:
+                for fld in ("body", "orelse", "finalbody"):
+                    blk = getattr(node, fld, None)
+                    if isinstance(blk, list) and blk and all(isinstance(x, ast.stmt) for x in blk):
+                        out = []
+                        for st in blk:
+                            if isinstance(st, ast.Return) and st.value is not None and not isinstance(st.value, (ast.Name, ast.Constant)):
+                                self.k += 1
+                                nm = f"result_{self.k}"
+                                out.append(ast.copy_location(ast.Assign(targets=[ast.Name(nm, ast.Store())], value=st.value), st))
+                                out.append(ast.copy_location(ast.Return(ast.Name(nm, ast.Load())), st))
+                            else:
+                                out.append(st)
+                        setattr(node, fld, out)
+            return node
+
+    tree = T().visit(tree)
+    ast.fix_missing_locations(tree)
+    return ast.unparse(tree) + "\n"
+
+
+def hoist_tests(src: str) -> str:
+    """A sixth behaviour-preserving rewrite: `if T:` whose test contains a call becomes `cond_k = T; if cond_k:` (only
+    for an `if` that is a statement of a block, not an `elif` link, and not inside a loop header)."""
+    tree = ast.parse(src)
+
+    class T(ast.NodeTransformer):
+        def __init__(self):
+            self.k = 0
+            self.fn = 0
+
+        def visit_FunctionDef(self, node):
+            self.fn += 1
+            self.generic_visit(node)
+            self.fn -= 1
+            return node
+
+        visit_AsyncFunctionDef = visit_FunctionDef
+
+        def visit_Lambda(self, node):
+            return node
+
+        def generic_visit(self, node):
+            super().generic_visit(node)
+            if self.fn:
+                for fld in ("body", "finalbody"):
+                    blk = getattr(node, fld, None)
+                    if isinstance(blk, list) and blk and all(isinstance(x, ast.stmt) for x in blk):
+                        out = []
+                        for st in blk:
+                            if isinstance(st, ast.If) and any(isinstance(c, ast.Call) for c in ast.walk(st.test)) and not any(isinstance(c, ast.NamedExpr) for c in ast.walk(st.test)):
+                                self.k += 1
+                                nm = f"cond_{self.k}"
+                                out.append(ast.copy_location(ast.Assign(targets=[ast.Name(nm, ast.Store())], value=st.test), st))
+                                st.test = ast.copy_location(ast.Name(nm, ast.Load()), st.test)
+                            out.append(st)
+                        setattr(node, fld, out)
+            return node
+
+    tree = T().visit(tree)
+    ast.fix_missing_locations(tree)
+    return ast.unparse(tree) + "\n"
